@@ -5,18 +5,19 @@ for b in "$@"; do
   n=$(git log --oneline main..$b | wc -l)
   [ "$n" = 0 ] && { echo "$b: nothing new"; continue; }
   git merge -q --no-edit "$b" >/dev/null 2>&1
-  # conflicts: generated files -> ours; evidence -> theirs
   for f in $(git diff --name-only --diff-filter=U); do
     case "$f" in
       lean/Driver.lean|lean/SaVerif.lean|MANIFEST.json|known_findings.json) git checkout --ours -- "$f";;
-      evidence/*) git checkout --theirs -- "$f" 2>/dev/null || git checkout --ours -- "$f";;
-      *) echo "CONFLICT in $f (branch $b) — resolve by hand"; exit 1;;
+      lean/SaVerif/Gen/*) git checkout --theirs -- "$f";;
+      evidence/*) git checkout --theirs -- "$f" 2>/dev/null || git checkout --ours -- "$f" 2>/dev/null || git rm -q --cached "$f";;
+      *) echo "CONFLICT in $f (branch $b) — resolve by hand"; git merge --abort; exit 1;;
     esac
-    git add "$f"
+    git add "$f" 2>/dev/null
   done
   git commit -q --no-edit -m "merge $b" >/dev/null 2>&1
-  echo "$b: merged $n commits"
+  left=$(git log --oneline main..$b | wc -l)
+  if [ "$left" = 0 ]; then echo "$b: merged $n commits"; else echo "$b: MERGE FAILED ($left commits left)"; git merge --abort 2>/dev/null; fi
 done
 python3 harness/mkdriver.py >/dev/null && python3 harness/mkmanifest.py
-git add -A && git commit -qm "regenerate driver/manifest after merges" 2>/dev/null
+git add -A && git commit -qm "regenerate driver/manifest after merges" >/dev/null 2>&1
 exit 0
